@@ -1,6 +1,6 @@
 (* Props/C01.v — snapshot reads are stable. *)
 From Coq Require Import List NArith Arith Bool.
-From SKV Require Import Base.Lex Txn.WriteSet Spec.Store Spec.Cursor Spec.Machine Lsm.CompactKey Lsm.CompactKeySpec.
+From SKV Require Import Base.Lex Txn.WriteSet Spec.Store Spec.Cursor Spec.Machine Lsm.CompactKey Lsm.CompactKeySpec Lsm.CompactKey_proofs.
 Import ListNotations.
 
 (* On the specification a snapshot's view is a function of the first s commits only:
@@ -16,7 +16,8 @@ Qed.
 (* A compaction of the versions of a key changes no answer of any reader that can exist — every
    registered snapshot horizon and every horizon at or above the newest version — for ALL version
    lists, snapshot sets, levels (bottom or not), versioning and retention settings. *)
-(* PENDING re-proof after the compaction fix: C01_compact_key_view : compact_key_view_stmt *)
+Theorem C01_compact_key_view : compact_key_view_stmt.
+Proof. exact compact_key_view. Qed.
 
 (* non-vacuity: a reader at horizon 1 keeps its value under a newer hard delete at the bottom level *)
 Example C01_compact_example :
